@@ -293,6 +293,21 @@ class Function:
         """block b reachable from block a (a != b needs >= 1 edge; a == b is True)"""
         return b in self.reachable(removed_blocks=tuple(avoiding_blocks), start=a)
 
+    def natural_loop(self, head):
+        """blocks of the natural loop(s) with header `head`"""
+        body = {head}
+        srcs = [p for p in self.pred[head] if self.dominates(head, p)]
+        work = list(srcs)
+        while work:
+            b = work.pop()
+            if b in body:
+                continue
+            body.add(b)
+            for p in self.pred[b]:
+                if p not in body:
+                    work.append(p)
+        return body if srcs else set()
+
     def in_loop(self, b):
         """block b lies on a cycle"""
         for s in self.succ[b]:
